@@ -37,6 +37,19 @@ Proof.
   apply IH. destruct (is_close c); lia.
 Qed.
 
+Lemma aware_pos_has_open : forall s a b, (0 < count_aware_from a b s)%Z -> has_open s = true.
+Proof.
+  induction s as [|c s IH]; intros a b H; cbn [count_aware_from has_open] in *; [lia|].
+  destruct (is_open c) eqn:Ho; [reflexivity|]. cbn [orb].
+  destruct (is_quote c && negb b); [eapply IH; eauto|].
+  destruct (is_bar c && negb a); [eapply IH; eauto|].
+  cbn [andb] in H.
+  destruct (is_close c && negb a && negb b); eapply IH with (a := a) (b := b); lia.
+Qed.
+
+Lemma count_v_pos_has_open : forall v s, (0 < count_v v s)%Z -> has_open s = true.
+Proof. intros [|] s H; [apply count_pos_has_open | eapply aware_pos_has_open]; exact H. Qed.
+
 Lemma ws_not_open : forall c, is_ws c = true -> is_open c = false.
 Proof.
   intros c H. unfold is_ws, is_open in *.
@@ -146,7 +159,7 @@ Lemma rr_loop_fix_total : forall fuel resp w,
   length (w_lines w) < fuel -> rr_loop Fix fuel resp w <> OutOfFuel.
 Proof.
   induction fuel as [|f IH]; intros resp w Hlen; [lia|].
-  cbn [rr_loop]. destruct (0 <? count_parens resp)%Z; [|discriminate].
+  cbn [rr_loop]. destruct (0 <? count_v Fix resp)%Z; [|discriminate].
   destruct (read_line_cases w) as [(l & r & El & Er) | [(El & Et & Er) | (El & Et & Er)]]; rewrite Er.
   - destruct (is_empty l); [discriminate|].
     apply IH. cbn. rewrite El in Hlen. cbn in Hlen. lia.
@@ -180,7 +193,7 @@ Lemma rr_loop_fix_reads : forall fuel resp w,
   end.
 Proof.
   induction fuel as [|f IH]; intros resp w; cbn [rr_loop];
-    destruct (0 <? count_parens resp)%Z; try exact I; try lia.
+    destruct (0 <? count_v _ resp)%Z; try exact I; try lia.
   destruct (read_line_cases w) as [(l & r & El & Er) | [(El & Et & Er) | (El & Et & Er)]]; rewrite Er; try exact I.
   - destruct (is_empty l).
     + unfold pot. cbn. rewrite El. cbn. lia.
@@ -224,7 +237,7 @@ Lemma cur_spin : forall fuel resp w,
   w_lines w = [] -> w_tail w = TEof -> (0 < count_parens resp)%Z ->
   rr_loop Cur fuel resp w = OutOfFuel.
 Proof.
-  induction fuel as [|f IH]; intros resp w El Et Hc; cbn [rr_loop].
+  induction fuel as [|f IH]; intros resp w El Et Hc; cbn [rr_loop count_v].
   - apply Z.ltb_lt in Hc. now rewrite Hc.
   - pose proof Hc as Hc'. apply Z.ltb_lt in Hc'. rewrite Hc'.
     unfold read_line. rewrite El, Et.
@@ -259,9 +272,9 @@ Lemma rr_loop_ok_inv : forall v fuel resp w r w',
   (r = resp /\ w' = w) \/ has_open r = true.
 Proof.
   intros v fuel. induction fuel as [|f IH]; intros resp w r w' H; cbn [rr_loop] in H.
-  - destruct (0 <? count_parens resp)%Z; [discriminate|]. injection H as <- <-. auto.
-  - destruct (0 <? count_parens resp)%Z eqn:Hc.
-    + right. apply Z.ltb_lt in Hc. apply count_pos_has_open in Hc.
+  - destruct (0 <? count_v v resp)%Z; [discriminate|]. injection H as <- <-. auto.
+  - destruct (0 <? count_v v resp)%Z eqn:Hc.
+    + right. apply Z.ltb_lt in Hc. apply count_v_pos_has_open in Hc.
       assert (G : forall x w1, rr_loop v f (resp ++ " " ++ x) w1 = Ok r w' -> has_open r = true).
       { intros x w1 Hx. destruct (IH _ _ _ _ Hx) as [[-> _]|Ho]; [|exact Ho].
         rewrite has_open_app, Hc. reflexivity. }
@@ -294,7 +307,7 @@ Proof.
   - right.
     destruct (rr_loop v fuel "" _) as [resp1 w2| | | |] eqn:EL; try discriminate.
     assert (resp1 = "") as ->.
-    { destruct fuel; cbn in EL; injection EL as <- _; reflexivity. }
+    { destruct v; destruct fuel; cbn in EL; injection EL as <- _; reflexivity. }
     cbn [starts_with trim_start] in H.
     destruct (try_wait w2) as [[[[] ?]|] w3]; try discriminate; injection H as <- _; auto.
 Qed.
@@ -364,6 +377,57 @@ Proof.
   change (count_parens "(error """) with 1%Z. change (count_parens """)") with (-1)%Z. lia.
 Qed.
 
+(** string-aware count of an error reply *)
+Fixpoint has_quote (s : string) : bool :=
+  match s with EmptyString => false | String c r => is_quote c || has_quote r end.
+
+Lemma ws_not_special : forall c, is_ws c = true -> is_quote c = false /\ is_bar c = false /\ is_open c = false /\ is_close c = false.
+Proof.
+  intros c H. unfold is_ws, is_quote, is_bar, is_open, is_close in *.
+  repeat split.
+  - destruct (Nat.eqb_spec (nat_of_ascii c) 34) as [E|E]; [rewrite E in H; discriminate | reflexivity].
+  - destruct (Nat.eqb_spec (nat_of_ascii c) 124) as [E|E]; [rewrite E in H; discriminate | reflexivity].
+  - destruct (Nat.eqb_spec (nat_of_ascii c) 40) as [E|E]; [rewrite E in H; discriminate | reflexivity].
+  - destruct (Nat.eqb_spec (nat_of_ascii c) 41) as [E|E]; [rewrite E in H; discriminate | reflexivity].
+Qed.
+
+Lemma aware_ws_app : forall p a b s, all_ws p = true -> count_aware_from a b (p ++ s) = count_aware_from a b s.
+Proof.
+  induction p as [|c p IH]; intros a b s H; [reflexivity|].
+  cbn [all_ws] in H. apply andb_prop in H. destruct H as [W H].
+  destruct (ws_not_special c W) as (Q & B & O & C).
+  cbn [append count_aware_from]. rewrite Q, B, O, C. cbn [andb]. now apply IH.
+Qed.
+
+Lemma aware_all_ws : forall p a b, all_ws p = true -> count_aware_from a b p = 0%Z.
+Proof. intros p a b H. rewrite <- (app_empty_r p). rewrite aware_ws_app by exact H. reflexivity. Qed.
+
+Lemma aware_in_string : forall m r, has_quote m = false ->
+  count_aware_from true false (m ++ r) = count_aware_from true false r.
+Proof.
+  induction m as [|c m IH]; intros r H; [reflexivity|].
+  cbn [has_quote] in H. apply orb_false_elim in H. destruct H as [Q H].
+  cbn [append count_aware_from]. rewrite Q. cbn [andb negb]. rewrite !andb_false_r. cbn [andb]. now apply IH.
+Qed.
+
+Lemma aware_error_prefix : forall r, count_aware_from false false ("(error """ ++ r) = (1 + count_aware_from true false r)%Z.
+Proof. intros r. reflexivity. Qed.
+
+Lemma aware_error_suffix : forall r, count_aware_from true false (""")" ++ r) = ((-1) + count_aware_from false false r)%Z.
+Proof. intros r. reflexivity. Qed.
+
+(** a message without a double quote (parentheses and bars allowed) never leaves the reply open *)
+Lemma aware_error_reply_plain : forall pre post msg,
+  all_ws pre = true -> all_ws post = true -> has_quote msg = false ->
+  count_parens_aware (pre ++ error_reply msg ++ post) = 0%Z.
+Proof.
+  intros pre post msg Hp Hq Hm. unfold count_parens_aware, error_reply.
+  rewrite aware_ws_app by exact Hp.
+  rewrite !app_assoc_s. rewrite aware_error_prefix.
+  rewrite aware_in_string by exact Hm.
+  rewrite aware_error_suffix. rewrite aware_all_ws by exact Hq. reflexivity.
+Qed.
+
 Lemma error_msg_fix_reply : forall msg, error_msg_fix (error_reply msg) = Some msg.
 Proof.
   intros msg. unfold error_msg_fix, error_reply.
@@ -383,22 +447,32 @@ Definition after_one_line (w : world) (rest : list string) : world :=
 
 Lemma error_unmangled_lemma : forall fuel w pre post msg rest,
   w_lines w = (pre ++ error_reply msg ++ post) :: rest ->
-  all_ws pre = true -> all_ws post = true -> (count_parens msg <= 0)%Z ->
+  all_ws pre = true -> all_ws post = true ->
+  (count_parens_aware (pre ++ error_reply msg ++ post) <= 0)%Z ->
   read_response Fix fuel w = Err (EFromSolver msg) (after_one_line w rest).
 Proof.
   intros fuel w pre post msg rest El Hp Hq Hc.
   unfold read_response, read_line. rewrite El.
-  set (l := (pre ++ error_reply msg ++ post)%string).
+  set (l := (pre ++ error_reply msg ++ post)%string) in *.
   fold (after_one_line w rest).
   assert (E : rr_loop Fix fuel l (after_one_line w rest) = Ok l (after_one_line w rest)).
-  { assert (C : (0 <? count_parens l)%Z = false).
-    { apply Z.ltb_ge. unfold l. rewrite count_error_reply by assumption. exact Hc. }
-    destruct fuel; cbn [rr_loop]; rewrite C; reflexivity. }
+  { assert (C : (0 <? count_parens_aware l)%Z = false) by (apply Z.ltb_ge; exact Hc).
+    destruct fuel; cbn [rr_loop count_v]; rewrite C; reflexivity. }
   rewrite E.
   destruct (trim_error_reply pre post msg Hp Hq) as [T1 T2]. fold l in T1, T2.
   rewrite T1, T2.
   assert (S : starts_with "(error" (error_reply msg ++ post) = true) by reflexivity.
   rewrite S. unfold error_msg. now rewrite error_msg_fix_reply.
+Qed.
+
+Lemma error_unmangled_plain_lemma : forall fuel w pre post msg rest,
+  w_lines w = (pre ++ error_reply msg ++ post) :: rest ->
+  all_ws pre = true -> all_ws post = true -> has_quote msg = false ->
+  read_response Fix fuel w = Err (EFromSolver msg) (after_one_line w rest).
+Proof.
+  intros fuel w pre post msg rest El Hp Hq Hm.
+  eapply error_unmangled_lemma; eauto.
+  rewrite aware_error_reply_plain by assumption. lia.
 Qed.
 
 (** today's reader NEVER hands over the message of an `(error "msg")` reply: it panics, or it
@@ -431,7 +505,7 @@ Proof.
   assert (E : rr_loop Cur fuel l (after_one_line w rest) = Ok l (after_one_line w rest)).
   { assert (C : (0 <? count_parens l)%Z = false).
     { apply Z.ltb_ge. unfold l. rewrite count_error_reply by assumption. exact Hc. }
-    destruct fuel; cbn [rr_loop]; rewrite C; reflexivity. }
+    destruct fuel; cbn [rr_loop count_v]; rewrite C; reflexivity. }
   rewrite E.
   destruct (trim_error_reply pre post msg Hp Hq) as [T1 T2]. fold l in T1, T2.
   rewrite T1, T2.
@@ -455,7 +529,7 @@ Proof.
   assert (E : rr_loop Cur fuel l (after_one_line w rest) = Ok l (after_one_line w rest)).
   { assert (C : (0 <? count_parens l)%Z = false).
     { apply Z.ltb_ge. unfold l. rewrite count_error_reply by assumption. exact Hc. }
-    destruct fuel; cbn [rr_loop]; rewrite C; reflexivity. }
+    destruct fuel; cbn [rr_loop count_v]; rewrite C; reflexivity. }
   rewrite E.
   destruct (trim_error_reply pre post msg Hp Hq) as [T1 T2]. fold l in T1, T2.
   rewrite T1, T2.
@@ -474,7 +548,7 @@ Lemma rr_loop_lines_le : forall v fuel resp w,
   end.
 Proof.
   intros v fuel. induction fuel as [|f IH]; intros resp w; cbn [rr_loop];
-    destruct (0 <? count_parens resp)%Z; try exact I; try lia.
+    destruct (0 <? count_v _ resp)%Z; try exact I; try lia.
   destruct (read_line_cases w) as [(l & r & El & Er) | [(El & Et & Er) | (El & Et & Er)]]; rewrite Er; try exact I.
   - assert (G : forall x, match rr_loop v f x (mkW r (w_tail w) (w_waits w) (w_wait_dflt w) (w_writes w) (S (w_reads w))) with
                           | Ok _ w' | Err _ w' => length (w_lines w') <= length (w_lines w) | _ => True end).
@@ -882,7 +956,7 @@ Qed.
 Lemma rr_loop_no_panic : forall v fuel resp w l, rr_loop v fuel resp w <> Panic l.
 Proof.
   intros v fuel. induction fuel as [|f IH]; intros resp w l; cbn [rr_loop];
-    destruct (0 <? count_parens resp)%Z; try discriminate.
+    destruct (0 <? count_v v resp)%Z; try discriminate.
   destruct (read_line w) as [x w1|]; [|discriminate].
   destruct v; [apply IH|]. destruct (is_empty x); [discriminate | apply IH].
 Qed.
@@ -913,4 +987,52 @@ Proof.
   intros v fuel w w1 u w' H. unfold write_cmd. rewrite H.
   destruct (read_response v fuel w1) as [r w2|e w2| | |]; try discriminate.
   destruct e; discriminate.
+Qed.
+
+(* ------------------------------------------------------------------ when the repaired reader blocks *)
+
+(** everything the reader would have joined: resp, then each remaining line after a blank *)
+Fixpoint join_lines (resp : string) (ls : list string) : string :=
+  match ls with [] => resp | l :: r => join_lines (resp ++ " " ++ l) r end.
+
+Lemma rr_loop_blocked_open : forall v fuel resp w,
+  rr_loop v fuel resp w = Blocked ->
+  w_tail w = TAlive /\ (0 < count_v v (join_lines resp (w_lines w)))%Z.
+Proof.
+  intros v fuel. induction fuel as [|f IH]; intros resp w H; cbn [rr_loop] in H.
+  - destruct (0 <? count_v v resp)%Z; discriminate.
+  - destruct (0 <? count_v v resp)%Z eqn:Hc; [|discriminate].
+    destruct (read_line_cases w) as [(l & r & El & Er) | [(El & Et & Er) | (El & Et & Er)]]; rewrite Er in H.
+    + assert (G : rr_loop v f (resp ++ " " ++ l) (mkW r (w_tail w) (w_waits w) (w_wait_dflt w) (w_writes w) (S (w_reads w))) = Blocked).
+      { destruct v; [exact H|]. destruct (is_empty l); [discriminate | exact H]. }
+      apply IH in G. cbn [w_tail w_lines] in G. rewrite El. exact G.
+    + destruct v; [|cbn in H; discriminate].
+      apply IH in H. cbn [w_tail] in H. destruct H as [H _]. discriminate.
+    + split; [exact Et|]. rewrite El. cbn [join_lines]. apply Z.ltb_lt. exact Hc.
+Qed.
+
+(** The reader blocks only while a live solver has written nothing at all, or a reply that is still
+    open (for the repaired reader: lexically open - parentheses outside string literals and quoted
+    symbols).  Waiting there is what any reader without a timeout must do. *)
+Lemma read_response_blocked_open : forall v fuel w,
+  read_response v fuel w = Blocked ->
+  w_tail w = TAlive /\
+  match w_lines w with
+  | [] => True
+  | l :: r => (0 < count_v v (join_lines l r))%Z
+  end.
+Proof.
+  intros v fuel w H. unfold read_response in H.
+  destruct (read_line_cases w) as [(l & r & El & Er) | [(El & Et & Er) | (El & Et & Er)]]; rewrite Er in H.
+  - destruct (rr_loop v fuel l _) as [resp w2| | | |] eqn:EL; try discriminate.
+    + destruct (starts_with "(error" (trim_start resp)).
+      * destruct (error_msg v (trim resp)); discriminate.
+      * destruct (try_wait w2) as [[[[] ?]|] ?]; discriminate.
+    + apply rr_loop_blocked_open in EL. cbn [w_tail w_lines] in EL. rewrite El. exact EL.
+  - destruct (rr_loop v fuel "" _) as [resp w2| | | |] eqn:EL; try discriminate.
+    + destruct (starts_with "(error" (trim_start resp)).
+      * destruct (error_msg v (trim resp)); discriminate.
+      * destruct (try_wait w2) as [[[[] ?]|] ?]; discriminate.
+    + apply rr_loop_blocked_open in EL. cbn [w_tail] in EL. destruct EL as [EL _]. discriminate.
+  - rewrite El. auto.
 Qed.
